@@ -305,7 +305,8 @@ pub fn setup_from_model(m: &Value) -> Setup {
         min_stake: m["minStake"].as_u64().unwrap_or(1) as u128,
         batch_period: m["batchPeriod"].as_u64().unwrap_or(2),
         unbonding: m["unbonding"].as_u64().unwrap_or(2),
-        monitors: vec!["mon1".into(), "mon2".into()],
+        monitors: m["monitors"].as_array().map(|a| a.iter().filter_map(|x| x.as_str().map(|s| s.to_string())).collect())
+            .unwrap_or_else(|| vec!["mon1".into(), "mon2".into()]),
         sub: "stTIA".into(),
     }
 }
